@@ -31,6 +31,8 @@ pub struct PpCfg {
     /// let plain text stand directly in front of a conditional directive (trigger of listed finding K7: the white
     /// space owned by the directive's operand is dropped, so the text may run into the branch's first token)
     pub glue: bool,
+    /// macros defined by the expansion of a maker macro (`define MK_DEFINE(n, v) `define n v)
+    pub define_via: bool,
 }
 
 impl PpCfg {
@@ -52,6 +54,7 @@ impl PpCfg {
             multi_dir: true,
             cond_weight: 3,
             glue: false,
+            define_via: false,
         }
     }
 }
@@ -84,6 +87,8 @@ pub struct Case {
 }
 
 // (the last four start like a directive name: `else_x is a macro usage, not `else followed by _x)
+/// the maker macro of `PpCfg::define_via` (never in the pool: only `undefineall removes it)
+pub const MAKER: &str = "MK_DEFINE";
 const MACRO_NAMES: &[&str] = &["MA", "MB", "MC", "MD", "ME", "wire", "begin", "M_f", "else_x", "endif_1", "elsif_y", "include_w"];
 const FORMAL_NAMES: &[&str] = &["x", "y", "p_a", "fmt"];
 const KEPT: &[&str] = &[
@@ -295,6 +300,7 @@ impl<'a, 'b> G<'a, 'b> {
         let cands: Vec<String> = self
             .table
             .keys()
+            .filter(|k| k.as_str() != MAKER)
             .filter(|k| match below {
                 Some(b) => macro_rank(k) < macro_rank(b),
                 None => true,
@@ -659,6 +665,41 @@ impl<'a, 'b> G<'a, 'b> {
                     let it = self.text_item(live);
                     out.push(it);
                 }
+                1 if self.cfg.define_via && live && self.t.chance(1, 3) => {
+                    // a `define produced by expanding the maker macro
+                    if !matches!(self.table.get(MAKER), Some(Some(_))) {
+                        let id = self.uid();
+                        let maker = MacroDef {
+                            id,
+                            name: MAKER.to_string(),
+                            formals: vec![Formal { name: "n".to_string(), default: None }, Formal { name: "v".to_string(), default: None }],
+                            body: Some(vec![BodyTok::Tok("`define".to_string()), BodyTok::Sp, BodyTok::Formal(0), BodyTok::Sp, BodyTok::Formal(1)]),
+                            trailing_comment: None,
+                        };
+                        self.table.insert(MAKER.to_string(), Some(MDef { def: maker.clone(), origin: DefOrigin::File(self.cur_file) }));
+                        let ws = self.nl();
+                        out.push(Item::Define(maker, ws));
+                    }
+                    let name = self.t.pick_str(MACRO_NAMES).to_string();
+                    let k = 1 + self.t.below(3);
+                    let mut body: Vec<BodyTok> = Vec::new();
+                    let mut actual: Vec<ArgTok> = Vec::new();
+                    for i in 0..k {
+                        let tok = format!("g{}", self.uid());
+                        if i > 0 {
+                            body.push(BodyTok::Sp);
+                        }
+                        body.push(BodyTok::Tok(tok.clone()));
+                        actual.push(ArgTok::Tok(tok));
+                    }
+                    let id = self.uid();
+                    let def = MacroDef { id, name: name.clone(), formals: vec![], body: Some(body), trailing_comment: None };
+                    self.table.insert(name.clone(), Some(MDef { def: def.clone(), origin: DefOrigin::File(self.cur_file) }));
+                    let usage = Usage { name: MAKER.to_string(), args: Some(vec![vec![ArgTok::Tok(name)], actual]), ws_before_paren: String::new() };
+                    // the produced `define runs to the end of its line
+                    let ws = self.nl();
+                    out.push(Item::DefineVia(usage, def, ws));
+                }
                 1 => {
                     // `define
                     let name = self.t.pick_str(MACRO_NAMES).to_string();
@@ -826,7 +867,7 @@ pub fn ensure_trailing_newline(out: &mut Vec<Item>) {
         Some(Item::Kept(_, ws)) | Some(Item::Define(_, ws)) | Some(Item::Undef(_, ws)) | Some(Item::UndefineAll(ws)) | Some(Item::Resetall(ws)) => !ws.ends_with('\n'),
         Some(Item::Cond(c)) => !c.ws_after_endif.ends_with('\n'),
         Some(Item::Include { ws_after, .. }) => !ws_after.ends_with('\n'),
-        Some(Item::Use(_, ws)) => !ws.ends_with('\n'),
+        Some(Item::Use(_, ws)) | Some(Item::DefineVia(_, _, ws)) => !ws.ends_with('\n'),
         Some(Item::FileMacro(ws)) => !ws.ends_with('\n'),
         Some(Item::LineMacro { ws_after, .. }) => !ws_after.ends_with('\n'),
     };
@@ -840,7 +881,7 @@ pub fn ensure_trailing_newline(out: &mut Vec<Item>) {
             Some(Item::Kept(_, ws)) | Some(Item::Define(_, ws)) | Some(Item::Undef(_, ws)) | Some(Item::UndefineAll(ws)) | Some(Item::Resetall(ws)) => ws.push('\n'),
             Some(Item::Cond(c)) => c.ws_after_endif.push('\n'),
             Some(Item::Include { ws_after, .. }) => ws_after.push('\n'),
-            Some(Item::Use(_, ws)) => ws.push('\n'),
+            Some(Item::Use(_, ws)) | Some(Item::DefineVia(_, _, ws)) => ws.push('\n'),
             Some(Item::FileMacro(ws)) => ws.push('\n'),
             Some(Item::LineMacro { ws_after, .. }) => ws_after.push('\n'),
             None => {}
